@@ -44,6 +44,8 @@ def run(repo, rep):
     _log_rule(repo, rep, 'C14', 'C14.Z2')
     from ..api_pitfalls import truth_rule as _truth_rule
     _truth_rule(repo, rep, 'C14', 'C14.Z4', extra_modules=('dulprovider',))
+    from ..api_pitfalls import attribute_rule as _attribute_rule
+    _attribute_rule(repo, rep, 'C14', 'C14.Z5')
     hier = exc_hierarchy(repo)
     acc = repo.cls('asceprovider', 'AssociationAcceptor')
     base = repo.cls('asceprovider', 'Association')
